@@ -199,7 +199,8 @@ func gen(r *rand.Rand, thorough bool, caseNo int) []string {
 		lb := fmt.Sprintf("s%d", s)
 		if i < nPrevS {
 			prevS = append(prevS, lb)
-			if r.Intn(8) != 0 {
+			// (the first one always: payFees divides by the number of registered magic-block sharders)
+			if i == 0 || r.Intn(8) != 0 {
 				sharders = append(sharders, fmt.Sprintf("%s:%d", lb, pick(r, stakes)))
 			}
 		} else if r.Intn(2) == 0 {
